@@ -1,5 +1,8 @@
 import re, os
-from vlib import H, SRC
+from vlib import H as _H, SRC
+def H(*a, **k):
+    k.setdefault('diff_runs', 16)
+    return _H(*a, **k)
 PROPERTY = 'C07'
 LEVEL = 'model_checking'
 
@@ -48,37 +51,55 @@ def valid_exps(c):
         vals = [(m >> (8 * (3 - e))) if e < 3 else (m << (8 * (e - 3))) for m in (1, 0x80, 0x8000, 0x7fffff)]
         if any(0 < v <= L for v in vals): out.append(e)
     return out
+def clamps(c, e):
+    # can 4 * (largest valid previous target with exponent e) exceed powLimit?  (guards the "clamped to powLimit" witness)
+    L = int(c['limit'], 16)
+    mx = max(v for v in ((m >> (8 * (3 - e))) if e < 3 else (m << (8 * (e - 3))) for m in range(1, 0x800000, 0x101)) if v <= L) if e in valid_exps(c) else 0
+    top = (0x7fffff >> (8 * (3 - e))) if e < 3 else (0x7fffff << (8 * (e - 3)))
+    mx = min(top, L)
+    return 1 if 4 * mx > L else 0
+def chain_idx(name):
+    return [i for i, c in enumerate(CHAINS) if c['name'] == name][0]
+def rvariant(i, e, bip=None):
+    c = CHAINS[i]; v = {'CHAIN': i, 'EXP': e, 'CLAMPS': clamps(c, e)}
+    b = c['bip94'] if bip is None else bip
+    if b: v.update({'BIP94': 1, 'SPACING_OVERRIDE': c['timespan'] // 4})
+    elif c['bip94'] is None: v.update({'BIP94': 0})
+    return v
 def retarget_variants(quick):
     vs = []
     for i, c in enumerate(CHAINS):
-        exps = valid_exps(c)
-        top = max(exps)
-        base = {'CHAIN': i}
+        exps = valid_exps(c); top = max(exps)
         bips = [c['bip94']] if c['bip94'] is not None else [0, 1]
+        same_as_main = i != 0 and (c['limit'], c['timespan'], c['noretarget'], c['bip94']) == (CHAINS[0]['limit'], CHAINS[0]['timespan'], CHAINS[0]['noretarget'], CHAINS[0]['bip94'])
         for b in bips:
-            v0 = dict(base)
-            if b: v0.update({'BIP94': 1, 'SPACING_OVERRIDE': c['timespan'] // 4})
-            elif c['bip94'] is None: v0.update({'BIP94': 0})
-            if c['noretarget']:
-                pick = [top - 1]
-            elif quick:
-                if i == 0: pick = [top, top - 1, top - 2, 0x1b, 0x18, 4, 2]
-                elif (c['limit'], c['timespan'], 0, 0) == (CHAINS[0]['limit'], CHAINS[0]['timespan'], b or 0, c['noretarget']): pick = [top]
-                else: pick = [top, top - 1, 0x1a]
-            else:
-                pick = exps
-            for e in pick:
-                v = dict(v0); v['EXP'] = e; vs.append(v)
+            if c['noretarget']: pick = [top - 1]
+            elif same_as_main: pick = [] if quick else [top - 1]      # CalculateNextWorkRequired does not read fPowAllowMinDifficultyBlocks
+            elif quick: pick = [top, top - 1, 0x17, 3] if i == 0 else [top - 1]
+            else: pick = exps
+            vs += [rvariant(i, e, b) for e in pick]
     return vs
 def permitted_variants(quick):
     vs = []
     for i, c in enumerate(CHAINS):
         exps = valid_exps(c); top = max(exps)
-        if c['allowmin']: pick = [top - 1]
-        elif quick: pick = [top, top - 1, top - 2, 0x1a, 3, 1]
-        else: pick = exps
+        if c['allowmin']: pick = [top - 1] if (not quick or c['name'] == 'CTestNetParams') else []
+        elif quick: pick = [top - 1, 0x17, 1] if i == 0 else [top]
+        else: pick = exps if i == 0 else exps[-8:]
         vs += [{'CHAIN': i, 'EXP': e} for e in pick]
     return vs
+def permits_variants(quick):
+    vs = []
+    for i, c in enumerate(CHAINS):
+        if c['allowmin'] or c['noretarget']: continue
+        exps = valid_exps(c); top = max(exps)
+        if quick: pick = [top - 1] if i == 0 else []
+        else: pick = [e for e in exps if e in (1, 3, 8, 16) or e >= 20] if i == 0 else exps[-4:]
+        vs += [rvariant(i, e) for e in pick]
+    return vs
+def realmul_variants():
+    c = CHAINS[0]; exps = valid_exps(c)
+    return [rvariant(0, e) for e in exps if e in (3, 4, 5, 6) or e >= 20]
 SWEEP = ['default', 'kissat', 'cvc5int', 'z3']
 # base_uint<256>::operator/= is a restoring division: one loop iteration per quotient bit, i.e. bits(dividend) - bits(divisor) + 1 iterations.
 # dividend <= mantissa(23 bits) * 4*timespan (23 bits) * 256^(EXP-3); divisor = timespan (>= 17 bits). The bound is checked by --unwinding-assertions.
@@ -87,25 +108,47 @@ def div_unwind(v):
     e = v.get('EXP', 3)
     k = 8 * max(e - 3, 0) + 46 - 17 + 3
     return ','.join('%s.%d:%d' % (DIVFN, i, k) for i in range(24))
+TS = sorted(set(c['timespan'] for c in CHAINS))
+DIV_VARIANTS = [{'XB': 28 if t > 500000 else 24, 'SH': 0, 'DIVISOR': t} for t in TS]
+DIV_TVARIANTS = DIV_VARIANTS + [{'XB': 30 if t > 500000 else 26, 'SH': 0, 'DIVISOR': t} for t in TS]
+STUBS = ['base_uint<256>::operator*=(uint32_t) replaced in the retarget/permitted harnesses by the reference a*m mod 2^256 (digit-wise); the real operator is proved equal to it for ALL inputs by harness mul32',
+         'base_uint<256>::operator/= replaced in the retarget/permitted harnesses by schoolbook long division (= floor(a/b), re-checked against q*b <= a < (q+1)*b on every native run); the real bit-serial operator is checked against that contract by harness division only for the dividend shapes listed there (46-bit symbolic dividends times 256^k are beyond SAT: measured 32 bits ~30 s, 40 bits > 10 min)',
+         'monotonicity of both specifications (x<=y => a*x<=a*y and floor(x/d)<=floor(y/d)) supplied to the solver as redundant assumptions between logged calls']
+RB = ('previous target: concrete compact exponent per variant (quick: 7 exponents on main incl. the three highest, up to 3 per other chain; thorough: every exponent with a target in (0,powLimit]), '
+      '23-bit mantissa symbolic; block times: all 32-bit first/last times (signed difference, both clamps); BIP94 chains: one real period of 4 blocks (spacing scaled to timespan/4), other blocks\' bits arbitrary')
+RA = ['previous target in (0, powLimit] (guaranteed by CheckProofOfWork on every indexed header)', 'block times are 32-bit header fields (nFirstBlockTime is passed from CBlockIndex::GetBlockTime)']
 HARNESSES = [
     H('compact_decode', 'c07.cpp', 'h_compact_decode', link=LINK, defines=DEFS, functions=FN, unwind=40,
-      bounds='all 2^32 nBits values (full input domain)', timeout=300, backends=['default', 'kissat']),
+      bounds='all 2^32 nBits values (full input domain)', timeout=300, backends=['default']),
     H('compact_encode', 'c07.cpp', 'h_compact_encode', link=LINK, defines=DEFS, functions=FN, unwind=40,
-      bounds='all 2^256 values, both sign arguments (full input domain)', timeout=300, backends=['default', 'kissat']),
+      bounds='all 2^256 values, both sign arguments (full input domain)', timeout=300, backends=['default']),
     H('checkpow', 'c07.cpp', 'h_checkpow', link=LINK, defines=DEFS, functions=FN, unwind=40, variants=[{'CHAIN': i} for i in LIMIT_CHAINS],
-      bounds='all 2^256 hashes x all 2^32 nBits, for each distinct powLimit of the built-in chains', timeout=300, backends=['default', 'kissat']),
-    H('retarget', 'c07_retarget.cpp', 'h_retarget', link=LINK, ubsan=False, defines=DEFS, functions=FN, unwind=100, unwindset=div_unwind, variants=retarget_variants(True), tvariants=retarget_variants(False),
-      bounds='previous target: concrete compact exponent per variant (quick: 7 exponents on main incl. the three highest, 3 per other chain; thorough: every exponent with a target in (0,powLimit]), '
-             '23-bit mantissa symbolic; block times: all 32-bit first/last times (signed difference, both clamps); BIP94 chains: one real period of 4 blocks (spacing scaled to timespan/4), other blocks\' bits arbitrary',
-      assumptions=['previous target in (0, powLimit] (guaranteed by CheckProofOfWork on every indexed header)', 'block times are 32-bit header fields (nFirstBlockTime is passed from CBlockIndex::GetBlockTime)'],
-      timeout=300, backends=SWEEP),
-    H('permitted', 'c07_retarget.cpp', 'h_permitted', link=LINK, ubsan=False, defines=DEFS, functions=FN, unwind=100, unwindset=div_unwind, variants=permitted_variants(True), tvariants=permitted_variants(False),
-      bounds='old target: concrete compact exponent per variant, mantissa symbolic, in (0,powLimit]; new bits: all 2^32 values; heights 0..2^31-1',
-      timeout=300, backends=SWEEP),
+      bounds='all 2^256 hashes x all 2^32 nBits, for each distinct powLimit of the built-in chains', timeout=300, backends=['default']),
+    H('rounding_monotone', 'c07.cpp', 'h_rounding_monotone', link=LINK, defines=DEFS, functions=FN, unwind=40, variants=[{'CHAIN': i} for i in LIMIT_CHAINS],
+      bounds='all pairs of 256-bit values x <= y, for each distinct powLimit', timeout=300, backends=['default', 'kissat']),
+    H('retarget', 'c07_retarget.cpp', 'h_retarget', link=LINK, defines=DEFS, functions=FN, unwind=260, variants=retarget_variants(True), tvariants=retarget_variants(False),
+      stubs=STUBS, bounds=RB, assumptions=RA, timeout=400, backends=['default']),
+    H('retarget_realmul', 'c07_retarget.cpp', 'h_retarget', link=LINK, defines=dict(DEFS, REAL_MUL=1), functions=FN, unwind=260, tier='thorough',
+      variants=realmul_variants(),
+      stubs=STUBS[1:], bounds=RB + '; real operator*=(uint32_t) (only the division is replaced)', assumptions=RA, timeout=900, backends=['kissat', 'default']),
+    H('retarget_permits', 'c07_retarget.cpp', 'h_retarget', link=LINK, defines=dict(DEFS, IMPLICATION=1), functions=FN, unwind=260, tier='thorough',
+      variants=permits_variants(False),
+      stubs=STUBS, bounds=RB + '; additionally PermittedDifficultyTransition(height = interval*k, k<=1000, previous bits, computed bits) must hold (thorough tier: main chain exponents 1,3,8,16,20..30, signet 4 highest)',
+      assumptions=RA, timeout=900, backends=['kissat', 'default']),
+    H('permitted', 'c07_retarget.cpp', 'h_permitted', link=LINK, defines=DEFS, functions=FN, unwind=260, variants=permitted_variants(True), tvariants=permitted_variants(False),
+      stubs=STUBS, bounds='old target: concrete compact exponent per variant, 23-bit mantissa symbolic, value in (0,powLimit]; new bits: all 2^32 values; heights 0..2^31-1',
+      timeout=400, backends=['default']),
     H('nextwork', 'c07_next.cpp', 'h_nextwork', link=LINK, defines=DEFS, functions=FN, unwind=100,
-      variants=[{'CHAIN': i, 'LAST': l, 'SPACING_OVERRIDE': CHAINS[i]['timespan'] // 4} for i in sorted(set([0, 1, len(CHAINS) - 1])) for l in (2, 3, 6, 7)],
+      variants=[{'CHAIN': i, 'LAST': l, 'SPACING_OVERRIDE': CHAINS[i]['timespan'] // 4} for i in (0, 1) for l in (2, 3, 6, 7)],
       tvariants=[{'CHAIN': i, 'LAST': l, 'SPACING_OVERRIDE': CHAINS[i]['timespan'] // 4} for i in range(len(CHAINS)) for l in (1, 2, 3, 4, 5, 6, 7, 11)],
       stubs=['CalculateNextWorkRequired replaced by an argument recorder with unconstrained result in the nextwork harness only (its arithmetic is the subject of the retarget harness)'],
       bounds='real CBlockIndex chains of 3..8 blocks (thorough up to 12) with the retarget interval shrunk to 4 blocks (spacing := timespan/4, other constants per chain); every block\'s nBits (limit or arbitrary) and nTime, and the new header\'s time symbolic',
       timeout=300),
+    H('mul32', 'c07_div.cpp', 'h_mul32', link=LINK, defines=DEFS, functions=FN, unwind=40,
+      bounds='all 2^256 multiplicands x all 2^32 multipliers (full input domain of operator*=(uint32_t))', timeout=400, backends=['kissat', 'default']),
+    H('division', 'c07_div.cpp', 'h_division', link=LINK, defines=DEFS, functions=FN, unwind=40, ubsan=False,
+      variants=DIV_VARIANTS, tvariants=DIV_TVARIANTS,
+      unwindset=lambda v: ','.join('%s.%d:%d' % (DIVFN, i, max(34, v['XB'] + v['SH'] - (1 if 'DB' in v else int(v['DIVISOR']).bit_length()) + 4)) for i in range(24)),
+      bounds='real operator/= against q*b <= a < (q+1)*b for all dividends below 2^28 (timespan 1209600) / 2^24 (timespan 86400), thorough 2^30 / 2^26; quotients of up to ~10 bits. Longer quotients are beyond SAT (measured: 16 symbolic bits shifted by 100 bits, or 8-bit symbolic divisors: no verdict in 200 s)',
+      timeout=300, backends=['default', 'kissat']),
 ]
